@@ -309,12 +309,12 @@ class Check:
         return r
 
     # ---- Apalache (symbolic, full-size integers): optional extras; a run that does not finish is "not run", never a pass
-    def apalache(self, module, length, note, cinit=None, expect_violation=False, timeout=600, init=None):
+    def apalache(self, module, length, note, cinit=None, expect_violation=False, timeout=600, init=None, inv="Inv"):
         if self.round > 0:
-            return self._mc_cache.get(("apalache", module, cinit, init))
-        self._mc_cache[("apalache", module, cinit, init)] = "counterexample" if expect_violation else "no error"
-        wd = os.path.join(self.workdir, "apa_" + module + ("_" + cinit if cinit else "") + ("_" + init if init else ""))
-        cmd = ["timeout", str(timeout), "apalache-mc", "check", "--inv=Inv", "--length=%d" % length, "--out-dir=" + wd]
+            return self._mc_cache.get(("apalache", module, cinit, init, inv))
+        self._mc_cache[("apalache", module, cinit, init, inv)] = "counterexample" if expect_violation else "no error"
+        wd = os.path.join(self.workdir, "apa_" + module + ("_" + cinit if cinit else "") + ("_" + init if init else "") + ("_" + inv if inv != "Inv" else ""))
+        cmd = ["timeout", str(timeout), "apalache-mc", "check", "--inv=" + inv, "--length=%d" % length, "--out-dir=" + wd]
         if cinit:
             cmd.append("--cinit=" + cinit)
         if init:
